@@ -65,25 +65,25 @@ Qed.
 
 (* ---------- strings ---------- *)
 
-(* how a string body can stop *)
-Inductive str_tail : string -> Prop :=
-| tail_close q rest : is_closer q -> str_tail (q ++ rest)
-| tail_end : str_tail ""
-| tail_backslash_end : str_tail "\"
+(* how a string body can stop; [curly]: the literal was opened by a curly quote *)
+Inductive str_tail (curly : bool) : string -> Prop :=
+| tail_close q rest : is_closer curly q -> str_tail curly (q ++ rest)
+| tail_end : str_tail curly ""
+| tail_backslash_end : str_tail curly "\"
 | tail_bad_escape r c2 r2 :
     take_char r = Some (c2, r2) -> (forall c, escape_value c <> None -> c2 <> String c "") ->
-    str_tail (String "\" r).
+    str_tail curly (String "\" r).
 
-Lemma str_decompose : forall n s need, String.length s <= n -> valid_go s need = true ->
-  exists items tl, forallb sitem_ok items = true /\ s = sitems_text items ++ tl /\ str_tail tl.
+Lemma str_decompose : forall curly n s need, String.length s <= n -> valid_go s need = true ->
+  exists items tl, forallb (sitem_ok curly) items = true /\ s = sitems_text items ++ tl /\ str_tail curly tl.
 Proof.
-  induction n as [|n IH]; intros s need Hn Hv.
+  intros curly. induction n as [|n IH]; intros s need Hn Hv.
   - destruct s; [|cbn [String.length] in Hn; lia]. exists [], "". repeat split. constructor.
   - destruct s as [|c r]; [exists [], ""; repeat split; constructor|]. cbn [String.length] in Hn.
     (* one more item in front *)
     assert (Ext : forall i s', String.length s' <= n -> forall k, valid_go s' k = true ->
-              sitem_ok i = true -> String c r = sitem_text i ++ s' ->
-              exists items tl, forallb sitem_ok items = true /\ String c r = sitems_text items ++ tl /\ str_tail tl).
+              sitem_ok curly i = true -> String c r = sitem_text i ++ s' ->
+              exists items tl, forallb (sitem_ok curly) items = true /\ String c r = sitems_text items ++ tl /\ str_tail curly tl).
     { intros i s' Hl k Hk Hi E. destruct (IH s' k Hl Hk) as (items & tl & I1 & I2 & I3).
       exists (i :: items), tl. cbn [forallb sitems_text]. rewrite Hi, I1. split; [reflexivity|].
       split; [|exact I3]. rewrite E, I2, app_assoc_s. reflexivity. }
@@ -107,14 +107,14 @@ Proof.
         + exists [], (String (ascii_of_N 92) (String x r')). split; [reflexivity|]. split; [reflexivity|].
           change (ascii_of_N 92) with "\"%char.
           destruct (take_char (String x r')) as [[c2 r2]|] eqn:Et; [|discriminate].
-          apply (tail_bad_escape (String x r') c2 r2 Et).
+          apply (tail_bad_escape curly (String x r') c2 r2 Et).
           intros c0 Hc0 E. subst c2. unfold take_char in Et.
           pose proof (utf8_width_pos x) as Hw. destruct (utf8_width x) as [|w]; [lia|].
           cbn [str_take] in Et. injection Et as E1 _ _. subst c0. congruence. }
     destruct (byte_of c =? 34)%N eqn:E34.
     { apply N.eqb_eq, byte_of_inj in E34. subst c.
       exists [], (String (ascii_of_N 34) r). split; [reflexivity|]. split; [reflexivity|].
-      apply (tail_close (String """" "") r). left. reflexivity. }
+      apply (tail_close curly (String """" "") r). left. reflexivity. }
     destruct (byte_of c =? 226)%N eqn:E226.
     2:{ apply (Ext (SByte c) r ltac:(lia) (utf8_width c - 1) Hv); [|reflexivity].
         cbn [sitem_ok]. unfold plain_byte. cbv zeta. rewrite E92, E34, E226. reflexivity. }
@@ -126,23 +126,24 @@ Proof.
     cbn [valid_go] in Hv. apply andb_prop in Hv. destruct Hv as [C1 Hv].
     apply andb_prop in Hv. destruct Hv as [C2 Hv].
     apply byte_of_inj in Ec. subst c. cbn [String.length] in Hn.
-    destruct ((byte_of c1 =? 128)%N && (byte_of c2 =? 157)%N) eqn:Erdq.
-    + (* the closing curly quote *)
+    destruct (curly && ((byte_of c1 =? 128)%N && (byte_of c2 =? 157)%N)) eqn:Erdq.
+    + (* the closing curly quote, in a curly-opened literal *)
+      apply andb_prop in Erdq. destruct Erdq as [Rc Erdq].
       apply andb_prop in Erdq. destruct Erdq as [R1 R2].
       apply N.eqb_eq, byte_of_inj in R1. apply N.eqb_eq, byte_of_inj in R2. subst c1 c2.
       exists [], (rdq ++ r'). split; [reflexivity|]. split; [reflexivity|].
-      apply tail_close. right. reflexivity.
+      apply tail_close. right. split; [exact Rc|reflexivity].
     + apply (Ext (SE2 c1 c2) r' ltac:(lia) 0 Hv); [|reflexivity].
       cbn [sitem_ok]. rewrite (cont_plain c1 C1), (cont_plain c2 C2), Erdq. reflexivity.
 Qed.
 
 (* the text after an opening quote, in a valid UTF-8 source *)
-Lemma str_decompose_valid s : valid_utf8 s = true ->
-  exists items tl, forallb sitem_ok items = true /\ s = sitems_text items ++ tl /\ str_tail tl.
-Proof. intros Hv. exact (str_decompose (String.length s) s 0 (le_n _) Hv). Qed.
+Lemma str_decompose_valid curly s : valid_utf8 s = true ->
+  exists items tl, forallb (sitem_ok curly) items = true /\ s = sitems_text items ++ tl /\ str_tail curly tl.
+Proof. intros Hv. exact (str_decompose curly (String.length s) s 0 (le_n _) Hv). Qed.
 
-Lemma str_tail_spec tl : str_tail tl <->
-  ((exists q rest, is_closer q /\ tl = q ++ rest) \/ tl = "" \/ tl = "\" \/
+Lemma str_tail_spec curly tl : str_tail curly tl <->
+  ((exists q rest, is_closer curly q /\ tl = q ++ rest) \/ tl = "" \/ tl = "\" \/
    (exists r c2 r2, tl = String "\" r /\ take_char r = Some (c2, r2) /\
                     forall c, escape_value c <> None -> c2 <> String c "")).
 Proof.
